@@ -89,7 +89,23 @@ class CharClass:
                 for c in v:
                     if c not in extra:
                         extra += c
+        # the same set written differently: alphas + nums is alphanums; all characters of a class spelt out
+        if "alphas" in names and "nums" in names:
+            names[names.index("alphas")] = "alphanums"
+            names.remove("nums")
+        if not names:
+            for cls in ("printables", "alphanums", "hexnums", "alphas", "nums"):
+                if set(_PP_SETS[cls]) <= set(extra):
+                    names = [cls]
+                    break
+        have = set("".join(_PP_SETS.get(n, "") for n in names))
+        extra = "".join(c for c in extra if c not in have)
         return names, extra
+
+
+_PP_SETS = {"nums": _string.digits, "alphas": _string.ascii_letters, "alphanums": _string.ascii_letters + _string.digits,
+            "hexnums": _string.digits + "ABCDEFabcdef",
+            "printables": "".join(c for c in _string.printable if c not in _string.whitespace)}
 
 
 def _cc_parts(o):
@@ -1322,24 +1338,43 @@ def read_parse_file(fn, interp):
 
     target, iter_node = it_node
     iter_node = fenv.resolve(iter_node)
-    if not is_call(iter_node, name="enumerate"):
+    start_node = None
+    if is_call(iter_node, name="enumerate"):
+        if not (isinstance(target, ast.Tuple) and len(target.elts) == 2 and all(isinstance(e, ast.Name) for e in target.elts)):
+            raise TranslateError("parse_file: enumerate target is not `index, line`")
+        ivar, lvar = target.elts[0].id, target.elts[1].id
+        if len(iter_node.args) > 2 or not iter_node.args:
+            raise TranslateError("parse_file: enumerate arguments")
+        start_node = iter_node.args[1] if len(iter_node.args) == 2 else None
+        for kw in iter_node.keywords:
+            if kw.arg == "start" and start_node is None:
+                start_node = kw.value
+            else:
+                raise TranslateError("parse_file: enumerate keyword %s" % kw.arg)
+        seq = fenv.resolve(iter_node.args[0])
+
+        def is_element(e):
+            e = fenv.resolve(e)
+            return isinstance(e, ast.Name) and e.id == lvar
+    elif is_call(iter_node, name="range") and len(iter_node.args) == 1 and not iter_node.keywords \
+            and is_call(fenv.resolve(iter_node.args[0]), name="len") and isinstance(target, ast.Name):
+        # for i in range(len(lines)): ... lines[i] ...
+        ln = fenv.resolve(iter_node.args[0])
+        if len(ln.args) != 1:
+            raise TranslateError("parse_file: len() arguments")
+        ivar = target.id
+        seq = fenv.resolve(ln.args[0])
+
+        def is_element(e):
+            e = fenv.resolve(e)
+            return isinstance(e, ast.Subscript) and isinstance(e.slice, ast.Name) and e.slice.id == ivar \
+                and ast.dump(fenv.resolve(e.value)) == ast.dump(seq)
+    else:
         raise TranslateError("parse_file: iteration is not over enumerate(...)")
-    if not (isinstance(target, ast.Tuple) and len(target.elts) == 2 and all(isinstance(e, ast.Name) for e in target.elts)):
-        raise TranslateError("parse_file: enumerate target is not `index, line`")
-    ivar, lvar = target.elts[0].id, target.elts[1].id
     enum_start = 0
-    if len(iter_node.args) > 2 or not iter_node.args:
-        raise TranslateError("parse_file: enumerate arguments")
-    start_node = iter_node.args[1] if len(iter_node.args) == 2 else None
-    for kw in iter_node.keywords:
-        if kw.arg == "start" and start_node is None:
-            start_node = kw.value
-        else:
-            raise TranslateError("parse_file: enumerate keyword %s" % kw.arg)
     start_terms = {}
     if start_node is not None:
         start_terms, enum_start = linear(start_node, fenv)
-    seq = fenv.resolve(iter_node.args[0])
     # <text parameter>.split(<sep>) -- directly, nothing filtered or stripped before
     if not (is_call(seq, "split") and isinstance(seq.func.value, ast.Name) and seq.func.value.id == textparam
             and fenv.single(textparam) is None and textparam not in fenv.assigns):
@@ -1358,19 +1393,18 @@ def read_parse_file(fn, interp):
     if bt is None:
         raise TranslateError("parse_file: blank-line test `%s` not understood" % _src(test))
     subject, meth, holds_for_blank = bt
-    subject = fenv.resolve(subject)
-    if not (isinstance(subject, ast.Name) and subject.id == lvar):
+    if not is_element(subject):
         raise TranslateError("parse_file: blank-line test is not about the line")
     if holds_for_blank == must_hold:
         raise TranslateError("parse_file: blank lines are parsed and the others skipped")
 
-    a_line = fenv.resolve(a_line)
-    line_is_element = isinstance(a_line, ast.Name) and a_line.id == lvar
+    line_is_element = is_element(a_line)
     terms, const = linear(a_no, fenv)
     if terms.get(ivar) != 1:
         raise TranslateError("parse_file: line number is not <index> + ... (found `%s`)" % _src(a_no))
     # the index may be used for nothing else
-    iuses = [x for x in ast.walk(fn) if isinstance(x, ast.Name) and x.id == ivar and isinstance(x.ctx, ast.Load)]
+    iuses = [x for x in ast.walk(fn) if isinstance(x, ast.Name) and x.id == ivar and isinstance(x.ctx, ast.Load)
+             and not isinstance(parents.get(x), ast.Subscript)]      # `lines[i]` of the index form is the element
     no_uses = [x for x in ast.walk(a_no) if isinstance(x, ast.Name) and x.id == ivar]
     only_number = len(iuses) == len(no_uses) or all(
         any(x is y for y in ast.walk(fenv.resolve(a_no))) for x in iuses)
